@@ -12,6 +12,9 @@ hash it (the case literal then only carries the text), a disagreement is re-run 
 Streams: statement texts and whole programs of proggen, c08gen's valid/wide/fault/mut streams (+ included files),
 respell variants, character-level fuzz (mutations at every kind of position and random strings over the parser's
 alphabet), hand-written edge cases, and the 21 practice programs (one shard per big file).
+Model-free oracle on the implementation alone: every ctx_start/ctx_end offset of every token and every diagnostic span
+lies within [0, len(text)] (signature `offset-outside-file`; this is what flags the pre-1ee1daa '.title ;x' defect
+without reading the code).  CORPUS holds the witness texts of defects found through this model; it runs first.
 Also checked here on every run (the model's reading of Python): str.isspace == SkipWs.is_space over all 0x110000
 code points; no non-ASCII character lower()s to a letter of a literal/escape; the generated command table agrees
 with the live builtin_commands.
@@ -48,7 +51,8 @@ def _mods():
     return m["reports"], m["parser"], m["types"], m["operators"]
 
 
-def ser_impl_tree(t, out):
+def ser_impl_tree(t, out, offs=None):
+    """serialise; `offs` (if given) collects every ctx_start/ctx_end offset of every token for the bounds oracle"""
     reports, parser, T, O = _mods()
     stack = [t]
     # iterative pre-order walk: (node | int | list of ints) work items
@@ -61,6 +65,11 @@ def ser_impl_tree(t, out):
             out.extend(x)
             continue
         s, e = x.ctx_start.pos, x.ctx_end.pos
+        if offs is not None:
+            offs.append(s)
+            offs.append(e)
+            if getattr(x, "ctx", None) is not None:
+                offs.append(x.ctx.pos)
         todo = None
         if isinstance(x, T.Symbol):
             todo = [[1, s, e] + sstr(x.name) + [int(bool(x.is_necessarily_label))]]
@@ -122,8 +131,22 @@ def hash_ser(ser):
     return h
 
 
+def out_of_bounds(text, offs, diags):
+    """the model-free oracle: every token offset and every diagnostic span lies within [0, len(text)]"""
+    n = len(text)
+    bad = [o for o in offs if not 0 <= o <= n]
+    for sv, ident, spans in diags:
+        for a, b in spans:
+            bad += [o for o in (a, b) if not 0 <= o <= n]
+    return bad
+
+
+LAST_OOB = []      # offsets outside the file seen by the last impl_parse (kept out of the return value for the callers' sake)
+
+
 def impl_parse(text):
     """-> (kind, serialisation, info)  kind: ok | crit | exc | ood (RecursionError / watchdog: outside the resource bound)"""
+    del LAST_OOB[:]
     reports, parser, T, O = _mods()
     impl.reset_global_state()
     diags = []
@@ -153,10 +176,13 @@ def impl_parse(text):
         signal.signal(signal.SIGALRM, old)
     if holder:
         out = [1]
-        ser_impl_tree(holder[0].body, out)
+        offs = []
+        ser_impl_tree(holder[0].body, out, offs)
         out += ser_diags(diags)
+        LAST_OOB.extend(out_of_bounds(text, offs, diags))
         return "ok", out, ""
     if diags and diags[-1][0] == 2:
+        LAST_OOB.extend(out_of_bounds(text, [], diags))
         return "crit", [2] + ser_diags(diags), ""
     return "exc", [3], "UnrecoverableError without a critical report"
 
@@ -290,6 +316,13 @@ def run_model(cases, judge="judge", timeout=900):
 
 # ---------------------------------------------------------------------------------------------------
 # inputs
+# permanent corpus: witnesses of defects found through this model (kept forever, run first)
+CORPUS = [
+    # 1ee1daa: a literal-text directive followed only by a comment swallowed the start of the next line / ran past EOF
+    ".title ;x\nnop", ".title ;x", ".title ; c", ".title\t;x\n\tnop\n", ".error ;x", ".error ;x\nnop", ".error\t;xyz\nclr r0\nnop",
+    ".sbttl ;x\nnop", ".sbttl ;x", ".sbttl  ; two\n; three\nmov r0, r1\n", ".TITLE ;;\n\n\nhalt", ".repeat 2 { .title ;x\nnop }\nnop",
+]
+
 EDGE = [
     "", " ", "\n", ";", "; c", "nop", "nop\n", " nop ; c\n", "NOP", "mov r0, r1", "mov\tr0,r1", "mov r0,r1 ; c\nnop", "mov #1, @#2", "mov (r0)+, -(sp)",
     "mov @(r1)+, @-(r2)", "mov 2(r0), @4(r1)", "clr @r0", "mov r0 r1", "movr0", "mov,r0", "mov , r0", "nop nop", "nop nop nop", "nop\tret", "nop +1",
@@ -300,7 +333,7 @@ EDGE = [
     "foo (r0)", "foo: bar", "x + y nop", "5", "8", "-8", "9.", "-9.", "10", "-10", "1$", "1$+2", "0x10", "0X1f", "0xg", "0o17", "0o8", "0b101", "0b102",
     "0x", "0b", "0o", "0x0x1", "0b0b1", "0z1", "0ball", "^X1f", "^x1F", "^O17", "^B101", "^D99", "^X", "^Xg", "^X1g", "^X1$", "^X1.", "^X1_", "^X1 ", "^B12", "^D1a",
     "-^X10", "- 5", "-  ^O7", "^Rabc", "^RABC", "^Rab", "^R", "^Rabcd", "^R$.%", "^R a", "^Rab c", "^C1", "^c1", "^C^C1", "^Q1", "^ 1", "^", "-^", "1+^", "^\u00a0",
-    "(1)", "<1>", "((1))", "(1", "(", "()", "<>", "(1>", "<1)", "^/1/", "^/1", "^$1$", "^[1]", "^<1>", "^<1<", "^(1)", "(1)(2)", "1(r0)", "(r0)", "(r0)+", "-(r0)",
+    "1 $ 2 $ 3", "a $ b $ c + 1", "a(b) $ c $ d", "1 $ 2 + 3 $ 4", "1 + 2 $ 3 * 4 $ 5", "x $ -y $ ~z", "(1)", "<1>", "((1))", "(1", "(", "()", "<>", "(1>", "<1)", "^/1/", "^/1", "^$1$", "^[1]", "^<1>", "^<1<", "^(1)", "(1)(2)", "1(r0)", "(r0)", "(r0)+", "-(r0)",
     "@(r0)+", "@-(r0)", "a(r0)", "@a(r0)", "(a)(b)(c)", "<a>(b)", "(a)<b>", "1 $ 2", "1$2", "a$ b", "1 + 2 * 3", "1 * 2 + 3", "1 << 2 >> 3", "1 < < 2", "1>>2",
     "1 > > 2", "1 _ 2", "1 ! 2 & 3 | 4 ^ 5", "1 % 2 / 3", "-1", "- 1", "--1", "-+~1", "+x", "~x", "#1", "@#1", "#@1", "%1", "%r0", "-x+", "x+", "x-", "x+ ", "x+,1",
     "x+)", "(x+)", "x+}", "x+;c", "x+\n", "x + + 1", "x++1", "x+-1", "a:b", "a: b", ".word a:", ".word a:+1", ".word 1:", ".word 1:+2", ".word 12:", ".word 1a:",
@@ -339,7 +372,7 @@ def fuzz_texts(rng, n, seeds):
     alpha = list("\"'/<>()^,;:.\t #@%+-*=\\{}$_!&|~\n\r0189aArRxXbBoOdDcC.:,  \n") + ["\u041a", "\u212a", "\u017f", "\u0130", "\u00a0", "\u2028", "\x00", "\x0c", "\x85", "\u0663", "\x1c"]
     words = ["mov", "nop", "clr", "r0", "sp", "pc", ".word", ".byte", ".ascii", ".title", ".error", ".repeat", ".end", "end", ".link", "a", "b1", "1$", "10", "8",
              "0x1f", "^x1f", "^o7", "^b1", "^d9", "^rab", "^c", "'a", "\"ab", "{", "}", "(", ")", "<", ">", "<<", ">>", "^/", "/", "::", "==", "=", ",", ", ", " ", " ", "\n",
-             ";c\n", ".", ".+2", "halt", "insert_file", "make_bin", ".include", ".foo", ".extern", "all", "\\n", "\\x41", "\\", "ret", "x", "foo", "^<", "^[", "]", "$", "_"]
+             ";c\n", ".", ".+2", "halt", "insert_file", "make_bin", ".include", ".foo", ".extern", "all", "\\n", "\\x41", "\\", "ret", "x", "foo", "^<", "^[", "]", "$", "_", " $ ", " $ ", "+", "*", " - ", "!", "&", "<<"]
     out = []
     for i in range(n):
         c = rng.random()
@@ -374,7 +407,7 @@ def collect(tier, seed):
     import respell
     rng = random.Random(f"P:{seed}")
     quick = tier == "quick"
-    items = [("edge", t) for t in EDGE]
+    items = [("corpus", t) for t in CORPUS] + [("edge", t) for t in EDGE]
     nprog = 60 if quick else 600
     progs = []
     stmts = []
@@ -510,7 +543,7 @@ def investigate(cases, idxs, limit=12):
 
 def explore_p(rep, tier, seed):
     t0 = time.time()
-    stats = {"cases": 0, "agree": 0, "disagree": 0, "ood": 0, "impl_exceptions": 0, "by_stream": {}, "python_reading_problems": []}
+    stats = {"cases": 0, "agree": 0, "disagree": 0, "ood": 0, "impl_exceptions": 0, "offsets_outside_file": 0, "by_stream": {}, "python_reading_problems": []}
     probs = python_reading_checks()
     stats["python_reading_problems"] = probs
     for p in probs:
@@ -520,6 +553,10 @@ def explore_p(rep, tier, seed):
     for stream, text in items:
         kind, ser, info = impl_parse(text)
         rep.count(f"P:{stream}:{kind}")
+        if LAST_OOB:
+            stats["offsets_outside_file"] += 1
+            rep.violate("offset-outside-file", "a token offset or a diagnostic span of pdpy11.parser.parse lies outside [0, len(text)] (model-free oracle)",
+                        {"text": text}, offsets=sorted(set(LAST_OOB))[:6], length=len(text), stream=stream)
         if kind == "ood":
             stats["ood"] += 1
             continue
@@ -574,7 +611,7 @@ def main():
         text = a.show if a.show is not None else open(a.show_file, encoding="utf-8").read()
         text = text.encode().decode("unicode_escape") if a.show is not None else text
         kind, ser, info = impl_parse(text)
-        print("impl :", kind, info, decode(ser))
+        print("impl :", kind, info, decode(ser), "offsets outside the file:" if LAST_OOB else "", LAST_OOB or "")
         (m,) = run_model([(text, 0)], judge="show")
         print("model:", decode(m))
         print("diff :", first_diff(decode(ser), decode(m)))
@@ -584,11 +621,11 @@ def main():
     for d in rep.disagreements[:40]:
         print("DISAGREE", repr(d["input"])[:300], "|", d.get("model"))
     for v in rep.violations[:20]:
-        print("IMPL-EXCEPTION", repr(v["input"])[:300], v.get("detail"))
+        print("VIOLATION", v["signature"], repr(v["input"])[:300], v.get("detail") or v.get("offsets"))
     print({k: v for k, v in st.items() if k != "by_stream"})
     for k, v in sorted(st["by_stream"].items()):
         print(f"  {k:18s} cases {v[0]:6d} disagree {v[1]}")
-    return 1 if (st["disagree"] or st["python_reading_problems"]) else 0
+    return 1 if (st["disagree"] or st["python_reading_problems"] or rep.violations) else 0
 
 
 if __name__ == "__main__":
